@@ -31,7 +31,11 @@ Gids123 == {1, 2, 3}
 OpsN == {"N"}
 OpsNH == {"N", "H"}
 Mps2   == G("mps2",   "mps",  <<2, 3>>,       Chain(2))
-GeomsCover    == <<Mps2, Mpo2>>
+\* the smallest geometries that take every action: the run with -coverage only reports per-action counts
+Mps2s  == G("mps2s",  "mps",  <<2, 2>>,       Chain(2))
+Mpo2s  == G("mpo2s",  "mpo",  <<2, 2>>,       Chain(2))
+GeomsCover    == <<Mps2s, Mpo2s>>
+GeomsFlags    == <<Mps2, Mpo2>>
 GeomsOne      == <<Mps3>>
 Gids1 == {1}
 GeomsSwap     == <<Mps4>>
